@@ -505,9 +505,37 @@ func typeKeyGlobal(gl *ssa.Global) string {
 	return strings.TrimPrefix(gl.Pkg.Pkg.Path(), modPath+"/") + "." + gl.Name()
 }
 
+// arrayEscapesAsPointer: a heap-allocated array whose address is used as a *[N]T value (returned, stored, passed)
+// and never sliced is modelled like any other pointee (family H:[N]T keyed by the reference), which is the
+// model used for *[N]T values that arrive from the heap or as parameters.
+func (g *Gen) arrayEscapesAsPointer(a *ssa.Alloc) bool {
+	if !a.Heap || a.Referrers() == nil {
+		return false
+	}
+	value, sliced := false, false
+	for _, r := range *a.Referrers() {
+		switch r := r.(type) {
+		case *ssa.IndexAddr:
+		case *ssa.Slice:
+			sliced = true
+		case *ssa.DebugRef:
+		case *ssa.Store:
+			if r.Val == ssa.Value(a) {
+				value = true
+			}
+		default:
+			value = true
+		}
+	}
+	if value && sliced {
+		oos("array %s is both sliced and used as a pointer value", a.Comment)
+	}
+	return value
+}
+
 func (g *Gen) isArrayAlloc(a *ssa.Alloc) bool {
 	_, ok := g.allocType(a).Underlying().(*types.Array)
-	return ok
+	return ok && !g.arrayEscapesAsPointer(a)
 }
 
 func (g *Gen) allocFam(a *ssa.Alloc) string {
@@ -642,7 +670,7 @@ func (g *Gen) instr(ins ssa.Instruction, b *ssa.BasicBlock, in map[*ssa.BasicBlo
 	case *ssa.DebugRef:
 	case *ssa.Alloc:
 		t := g.allocType(x)
-		if at, ok := t.Underlying().(*types.Array); ok {
+		if at, ok := t.Underlying().(*types.Array); ok && !g.arrayEscapesAsPointer(x) {
 			// arrays live in the element family under a fresh base so that they can be sliced
 			base := g.newRef(st)
 			z := g.zeroVal(at.Elem())
@@ -1285,7 +1313,7 @@ func (g *Gen) ret(x *ssa.Return) {
 	for _, e := range g.con.Ensures {
 		g.obligeClause("ensures", g.evalBool(e.Expr, cx, e), e)
 	}
-	if g.con.HasMod || g.con.Pure {
-		g.checkModifies()
-	}
+	// a contract without a modifies clause means "modifies nothing that existed at entry": callers assume exactly
+	// that, so it is checked here
+	g.checkModifies()
 }
